@@ -1,5 +1,7 @@
 package main
 
+import "strings"
+
 // SplitMix64: every random choice derives from one state seeded by VERIF_SEED.
 type RNG struct{ s uint64 }
 
@@ -39,6 +41,8 @@ type Gen struct {
 	nextID  int
 	nextTok int
 	hostile bool
+	// longUnsafe: unsafe inputs are sometimes several KiB long (direct-oracle cases only)
+	longUnsafe bool
 	// knobs
 	allowHops    bool
 	allowUnknown bool
@@ -49,7 +53,9 @@ type Gen struct {
 }
 
 func NewGen(seed uint64) *Gen {
-	return &Gen{rng: &RNG{s: seed}, nextID: 100, maxDepth: 6, opCount: map[string]int{}}
+	// random trees also contain constructors taking error arguments (Newf/Wrapf with %v / %w) and
+	// sub-errors that went through a network hop before being wrapped further
+	return &Gen{rng: &RNG{s: seed}, nextID: 100, maxDepth: 6, opCount: map[string]int{}, allowErrArgs: true, allowHops: true}
 }
 
 func (g *Gen) id() int {
@@ -277,13 +283,24 @@ func (g *Gen) Tree(depth int) *R {
 }
 
 func (g *Gen) errArgOp(depth int) *R {
-	switch g.rng.Intn(3) {
+	// the word must not contain a '%': it is part of a format whose verbs are matched with the
+	// error arguments by position
+	w := g.word()
+	for strings.Contains(w, "%") {
+		w = g.rng.Pick(regularWords)
+	}
+	switch g.rng.Intn(5) {
 	case 0:
-		return g.node("newfe", []string{g.word() + " %v"}, nil, g.Tree(depth-1))
+		return g.node("newfe", []string{w + " %v"}, nil, g.Tree(depth-1))
 	case 1:
-		return g.node("newfw", []string{g.word() + ": %w"}, nil, g.Tree(depth-1))
+		return g.node("newfw", []string{w + ": %w"}, nil, g.Tree(depth-1))
+	case 2:
+		// a %w error and a further error argument: both are kept (as secondary errors)
+		return g.node("newfw", []string{w + ": %w (also %v)"}, nil, g.Tree(depth-1), g.Tree(depth-2))
+	case 3:
+		return g.node("newfe", []string{w + " %v and %v"}, nil, g.Tree(depth-1), g.Tree(depth-2))
 	default:
-		return g.node("wrapfe", []string{g.word() + " %v"}, nil, g.Tree(depth-1), g.Tree(depth-2))
+		return g.node("wrapfe", []string{w + " %v"}, nil, g.Tree(depth-1), g.Tree(depth-2))
 	}
 }
 
